@@ -123,7 +123,10 @@ class C09(Prop):
             "magnification 1..4 realised by (spotsize, speed, scantime) triples incl. binary-inexact values whose float quotient is the "
             "integer, warm-up 0..5 samples given in seconds (exact, fractional, exact rounding tie), 1..4 offsets with denominators "
             "1..6, first offset zero or not, 1..3 elements, every sample a unique integer token. Non-trivial = accepted and reconstructed; "
-            "rejected stacks still exercise the validity check, layer reads and the round trip; distinct by canonical case hash. "
+            "rejected stacks still exercise the validity check (compared in both directions with Lean's validSpec), layer reads (with and "
+            "without flat=True) and the round trip; distinct by canonical case hash. Every case sends only INPUTS to the driver "
+            "(constructor arguments and the changes made to the object); the real to_array() result is encoded field by field and read "
+            "back by the model's from_array, SRRConfig.from_array of a plain Config array (defaults for the missing fields) included. "
             "Config-only cases (feature cfg-only, ~22 % of the generated cases + enumerations in targeted()): no stack, one SRRConfig "
             "object that is given 1..8 offset lists one after the other (constructor, then the setter), lists of length 1..4 with "
             "denominators 1..30 (common, mixed, multiples of each other), magnification 1..12; after each assignment the public getters "
@@ -136,24 +139,40 @@ class C09(Prop):
             "config replaced or changed through its setters), then every observation again, compared with the model of the NEW stack "
             "and config")
     trusted = [
-        "'integer magnification' means spotsize/(speed*scantime) evaluates to an integer in float64 (DESIGN 6a); the model is given that value",
-        "np.round(seconds/scantime) equals round-half-even of the exact quotient of the float values unless that quotient is within 1e-9 of a "
-        "tie without being one (such cases are counted undetermined)",
-        "np.mean over <= 5 integer-valued float64 layers is within 1e-12 relative of the exact mean",
-        "NumPy slicing, np.repeat, .T, np.zeros and slice assignment behave as documented (modelled step by step in PewModel/Srr.lean)",
+        "'integer magnification' means spotsize/(speed*scantime) evaluates to an integer in float64 (DESIGN 6a); the driver computes "
+        "that float64 value itself from the three inputs (PewModel/Srr.lean `fl`: round to nearest, ties to even, normal range) and the "
+        "harness compares it bit for bit with the `magnification` getter on every case",
+        "IEEE-754: float64 multiplication and division are correctly rounded (modelled by `fl`, theorem fl_relerr); the warm-up in samples "
+        "is np.round (half-even) of the float64 quotient seconds/scantime, modelled exactly; the SPECIFICATION of the warm-up is half-even "
+        "of the exact quotient - when the two can differ (quotient not a float64 and within |x|/2^53 of a tie, hypothesis of "
+        "warmup_setter_determined, decided by the driver) the case is counted undetermined",
+        "np.mean over <= 5 integer-valued float64 layers is within 1e-12 relative of the exact mean (flat_is_mean is about the exact mean)",
+        "NumPy slicing, np.repeat, .T, np.zeros and slice assignment behave as documented (modelled step by step in PewModel/Srr.lean); "
+        "assignment broadcasting of a length-1 axis is not modelled: for accepted configurations on crossed stacks it cannot occur "
+        "(valid_implies_shapes_agree; re-checked on every accepted case: the model answering 'raises' where pewlib reconstructs is a reported difference)",
         "the offsets a configuration holds are observed through the public `subpixel_offsets` getter (rows [stored, size]); the "
         "statement of offsets_setter_exact is evaluated on those rows by the driver (`setterExact`), for accepted configurations",
+        "structured arrays: NumPy >= 2 semantics of float(array) (TypeError unless 0-d), array[name] (ValueError for a missing field) and "
+        "keyword construction; only 0-d / 1-d arrays of float64 fields and (k, 2) integer tables are encoded for the driver",
     ]
     assumptions = [
-        "layer i of a stack has the shape of layer (i mod 2) (crossed layers, DESIGN 6a)",
-        "a configuration the implementation rejects although the model accepts it is not a violation (the property only speaks of accepted "
-        "configurations); it is counted under the feature 'impl-rejects-model-accepts'",
+        "layer i of a stack has the shape of layer (i mod 2) (crossed layers, DESIGN 6a); the driver re-checks it (`crossed`)",
+        "acceptance is compared in BOTH directions: check_config_valid must accept exactly the configurations for which every source index "
+        "of the geometric model exists (Lean `validSpec`, theorems valid_iff_spec and valid_iff_evaluable); a validity check that rejects "
+        "a configuration the specification accepts is reported (feature 'impl-rejects-spec-accepts'). Near-integer magnifications (float "
+        "quotient within 1e-9 of an integer without being one) stay outside: run, reported as features, never compared",
+        "the specification (voxel formula, flat mean, acceptance) and the model are evaluated by the driver for the configuration computed "
+        "by Lean from the INPUTS (constructor arguments, then the setter calls / set_equal_subpixel_offsets / replacement made on the "
+        "object, `ops`), never from what the implementation reports; the implementation's getters (warmup, magnification, "
+        "subpixel_offsets, subpixels_per_pixel) and its array form are compared with that configuration too (impl-vs-model)",
         "history cases change the stack only through the public list `laser.data` (item assignment of a same-shape, same-dtype array, "
-        "or element assignment into a layer) and the configuration only through `laser.config` (assignment of a new SRRConfig, or its "
-        "`subpixel_offsets` / `warmup` setters); every reconstruction is required to follow the stack and config the object holds when "
-        "it is called ('for every stack ... and every accepted configuration')",
+        "or element assignment into a layer) and the configuration only through `laser.config` (assignment of a new SRRConfig, its "
+        "`subpixel_offsets` / `warmup` setters, `set_equal_subpixel_offsets`); every reconstruction is required to follow the stack and "
+        "config the object holds when it is called ('for every stack ... and every accepted configuration')",
         "config-only cases outside the hypotheses of offsets_setter_exact (empty list, denominator < 1, negative numerator) or whose "
         "lcm * numerator does not fit 2^60 are counted as hypothesis-excluded, never compared",
+        "a change of the array LAYOUT (field names, order, shape) that keeps from_array(to_array(c)) = c is reported as an "
+        "implementation-vs-model difference (the model's arrays are the ones NumPy builds now), not as a violation of the specification",
     ]
 
     def generate(self, rng, tier):
@@ -248,8 +267,16 @@ class C09(Prop):
                     if cand != case["pairs"] and (l0 * M * p + ov) * (l1 * M * p + ov) * n <= 3500:
                         pairs2 = cand
                         break
-                steps.append({"op": "config", "via": rng.choice(["object", "setter"]), "pairs": pairs2,
-                              "warmup": w2 * case["scantime"]})
+                via = rng.choice(["object", "setter", "setter", "equal"])
+                if via == "equal":  # set_equal_subpixel_offsets(width): offsets 0/width .. (width-1)/width
+                    for width in rng.sample([1, 2, 3, 4, 5], 5):
+                        p = math.lcm(width, M) // M
+                        if (l0 * M * p + width - 1) * (l1 * M * p + width - 1) * n <= 3500:
+                            pairs2 = [[k, width] for k in range(width)]
+                            break
+                    else:
+                        via = "setter"
+                steps.append({"op": "config", "via": via, "pairs": pairs2, "warmup": w2 * case["scantime"]})
         case["steps"] = steps
         case["order"] = rng.choice(["std", "std", "flat-first", "krisskross-first"])
         return case
@@ -292,6 +319,7 @@ class C09(Prop):
         yield {**hbase, "steps": [{"op": "edit", "layer": 3, "cells": "all"}], "order": "krisskross-first"}
         yield {**hbase, "steps": [{"op": "config", "via": "setter", "pairs": [[0, 2], [1, 2]], "warmup": 0.0}]}
         yield {**hbase, "steps": [{"op": "config", "via": "object", "pairs": [[1, 2]], "warmup": 0.25}]}
+        yield {**hbase, "steps": [{"op": "config", "via": "equal", "pairs": [[0, 3], [1, 3], [2, 3]], "warmup": 0.5}]}
         yield {**hbase, "steps": [{"op": "config", "via": "setter", "pairs": [[2, 3]], "warmup": 0.25}, {"op": "replace", "layer": 0}]}
         yield {**base, "kind": "history", "shapes": [[1, 1], [1, 1]], "steps": [{"op": "replace", "layer": 0}], "order": "std"}
         yield {**base, "kind": "history", "shapes": [[1, 2], [2, 1]], "n": 3, "steps": [{"op": "edit", "layer": 2, "cells": [[0, 0]]}],
@@ -611,6 +639,10 @@ class C09(Prop):
                     laser.config = make_srr_cfg({**case2, "pairs": pairs2, "warmup": stp["warmup"]})
                     case2["ops"] = case2["ops"] + [cfg_op("new", spotsize=case2["spotsize"], speed=case2["speed"],
                                                           scantime=case2["scantime"], warmup=stp["warmup"], pairs=pairs2)]
+                elif stp["via"] == "equal" and pairs2 == [[k, len(pairs2)] for k in range(len(pairs2))]:
+                    laser.config.set_equal_subpixel_offsets(len(pairs2))
+                    laser.config.warmup = stp["warmup"]
+                    case2["ops"] = case2["ops"] + [cfg_op("equal", width=len(pairs2)), cfg_op("warmup", seconds=stp["warmup"])]
                 else:
                     laser.config.subpixel_offsets = [tuple(q) for q in pairs2]
                     laser.config.warmup = stp["warmup"]
